@@ -257,6 +257,8 @@ def contracts(tier):
     yield ("USBStreamInEndpoint", "max8", make_in("endpoint", 8))
     yield ("USBInTransferManager", "max8", make_in("manager", 8))
     yield ("USBStreamOutEndpoint", "max8", make_out(8))
+    # endpoint number above 7 (all four bits of the clear-halt / token comparison matter; seed P1_2)
+    yield ("USBStreamOutEndpoint", "max8_ep9", make_out(8, epnum=9))
     yield ("StandardRequestHandler", "blockram", make_req(False))
     # caller side (parameter plumbing): the handler a control endpoint builds with add_standard_request_handlers() is the
     # configuration contracted above (same registers, next-state and output functions, incl. clear_endpoint_halt)
